@@ -39,7 +39,8 @@ PROPS: dict[str, dict[str, Any]] = {
     },
     "C09": {
         "level": "exploration",
-        "sidecars": ["contracts/c09.py"],
+        # contracts/c_run.py: the selection that otel_to_pv streams under is find_unique_graphs of the *cleaned* store
+        "sidecars": ["contracts/c09.py", "contracts/c_run.py"],
         "native_n": {"quick": 300, "thorough": 10000},
         "bounded": [{"script": "bounded/store_harness.py", "args": ["--mode", "c09"]}],
         "rule": "bounded stand-in: stores of 3 traces (two under one workflow name with shapes drawn from all labelled rooted trees of <= 3 spans over 2 "
@@ -75,7 +76,8 @@ PROPS: dict[str, dict[str, Any]] = {
     },
     "C12": {
         "level": "exploration",
-        "sidecars": ["contracts/c12.py"],
+        # contracts/c_run.py: otel_to_pv streams the cleaned store, under the selection or no filter, every name with its own configuration
+        "sidecars": ["contracts/c12.py", "contracts/c_run.py"],
         "native_n": {"quick": 300, "thorough": 10000},
         "bounded": [{"script": "bounded/store_harness.py", "args": ["--mode", "c12"]}],
         "rule": "bounded stand-in: stores of 2-3 traces (chains and bushy trees of 1..7 (thorough 9) spans, trace sizes below / equal / above the batch "
